@@ -30,7 +30,7 @@ package compression
 //@   ensures @identity result_1 == nil && compression <= 1 ==> cmpFormat(result_0) == 1
 
 //@ func GetDecompressor
-//@   modifies brotliSrc, zstdSrc, snappySrc
+//@   modifies ghosts:*Src
 //@   ensures @known (result_1 == nil) == (0 <= compression && compression <= 6)
 //@   ensures @format result_1 == nil ==> result_0 != nil && (decFormat(result_0) == wantFormat(compression) || decFormat(result_0) == 0)
 //@   ensures @identity result_1 == nil && compression <= 1 ==> decFormat(result_0) == 1
